@@ -363,7 +363,8 @@ func normalizeDoc(doc any) any {
 	})
 }
 
-var unknownKeys = []string{"x-a", "zzz", "$recursiveRef", "id", "Minimum", "TYPE", "x b", "extends", "additionalproperties", "Title"}
+// (case variants under ASCII folding and under Unicode simple folding: U+017F LONG S folds to s, U+212A KELVIN SIGN to k)
+var unknownKeys = []string{"x-a", "zzz", "$recursiveRef", "id", "Minimum", "TYPE", "x b", "extends", "additionalproperties", "Title", "con\u017ft", "item\u017f", "propertie\u017f", "\u017fchema", "min\u212a"}
 
 func (c05) docTrip(c *fw.Case) {
 	r := c.R
